@@ -46,7 +46,7 @@ def run_property(pid: str, tier: str, seed: int, repo: Repo | None = None) -> Ct
     ctx = Ctx(pid, repo, tier, seed)
     mod.run(ctx)
     minimum = getattr(mod, "MIN_INSTANCES", 1)
-    if len(ctx.instances) < minimum:
+    if len(ctx.instances) < minimum and all(i.ok for i in ctx.instances):
         raise AnalysisError(
             f"{pid}: only {len(ctx.instances)} rule instances evaluated, expected at least {minimum}"
         )
